@@ -326,7 +326,8 @@ class WriterSpec(BfsSpec):
         # oracle judges the whole file: two histories are merged only when they produced identical
         # bytes *and* identical writer state, hence have identical futures.
         t = st.track
-        return (bytes(t.delta_time), t.delay, bool(t.change_instrument), t.instrument, t.bpm, bytes(t.track_data))
+        return (bytes(t.delta_time), t.delay, bool(t.change_instrument), t.instrument, t.bpm, bytes(t.track_data),
+                engine.deep_key(t))      # plus every other attribute the writer object (or its class) holds
 
 
 def run_writer_bfs(case):
